@@ -39,6 +39,7 @@ KNOWN_ORDER = 'composite-resolved-through-later-state-variable'
 KNOWN_FORTARGET = 'nouts-for-target-killed-on-loop-exit'
 KNOWN_PREV_ITER = 'getter-reads-body-local-bound-only-by-previous-iteration'
 KNOWN_TRY_DEF = 'getter-reads-variable-defined-only-inside-earlier-try'
+KNOWN_EXCEPT_AS = 'except-as-name-shadows-function-variable'
 SHIFT = 4     # module prelude lines in front of the generated function
 
 DIRECTIVE = 'malt.experimental.set_loop_options'
@@ -650,6 +651,41 @@ class Monitor(object):
             return False
         return all(any(t.lineno <= x.lineno <= t.end_lineno for t in tries) for x in stores)
 
+    def is_except_as_shadow(self, sup, frame):
+        """classifier of the known finding: the simple name `sup` through which a composite symbol name is resolved is
+        unbound at the operator call because (1) the original function binds it in an `except ... as sup:` clause,
+        (2) it is a PARAMETER of the original function that no statement of the function assigns or deletes (so in the
+        original it is bound until such a handler has run), and (3) in the generated code the variable the call site sees
+        is not the function's: walking out from the frame that issues the call, the first generated frame that owns
+        `sup` (cell or local variable, not a free one) is a generated body function (if_body / else_body / loop_body),
+        i.e. the handler clause -- activity analysis isolates its name, so no `nonlocal` is declared -- made the name a
+        fresh local of that body function, and that local is unbound."""
+        import re
+        if self.program_src is None or not isinstance(sup, str) or not sup.isidentifier():
+            return False
+        fn = ast.parse(self.program_src).body[0]
+        if sup not in {a.arg for a in fn.args.args}:
+            return False
+        if not any(isinstance(h, ast.ExceptHandler) and h.name == sup for h in ast.walk(fn)):
+            return False
+        if any(isinstance(x, ast.Name) and x.id == sup and not isinstance(x.ctx, ast.Load) for x in ast.walk(fn)):
+            return False
+        fr, fname = frame, frame.f_code.co_filename
+        while fr is not None:
+            co = fr.f_code
+            if co.co_filename == fname and (sup in co.co_cellvars or sup in co.co_varnames):
+                if not re.match(r'^(if_body|else_body|loop_body)(_\d+)?$', co.co_name):
+                    return False
+                if sup in co.co_varnames[:co.co_argcount + co.co_kwonlyargcount]:
+                    return False
+                try:
+                    v = fr.f_locals[sup]
+                except KeyError:
+                    return True
+                return self.is_undef(v)
+            fr = fr.f_back
+        return False
+
     # ---- the contract at one invocation
     def check_state(self, op, frame, get_state, set_state, names, nouts, detail):
         ok = True
@@ -667,10 +703,11 @@ class Monitor(object):
             return None
         # every symbol name denotes a variable of the enclosing function: the names a composite is resolved through are bound there
         unresolved = self.unbound_support(names, frame)
+        shadowed = {sup for _, sup in unresolved if self.is_except_as_shadow(sup, frame)}
         for nm, sup in unresolved:
             self.fail('%s: symbol name %s does not denote a variable of the enclosing function (%s, through which it is '
                       'resolved, is unbound there when the operator is called)' % (op, nm, sup),
-                      dict(detail, symbol=nm, unbound_support=sup))
+                      dict(detail, symbol=nm, unbound_support=sup), KNOWN_EXCEPT_AS if sup in shadowed else None)
         before = self.snapshot()
         try:
             g1 = get_state()
@@ -711,6 +748,11 @@ class Monitor(object):
                 self.fail('%s: nouts=%r is not within 0..%d' % (op, nouts, n), detail)
         # the known finding is about a key / attribute that does not exist yet in an object the name really designates
         classify_missing = KNOWN_MISSING if missing and not (set(missing) & {nm for nm, _ in unresolved}) else None
+        if classify_missing is None and missing and unresolved and all(
+                sup in shadowed for nm, sup in unresolved if nm in missing):
+            # the unset composites are all resolved through a name hidden by an except clause: writing the Undefined
+            # object back through that unbound name raises NameError -- the same finding, not a new one
+            classify_missing = KNOWN_EXCEPT_AS
         d2 = dict(detail, missing_composites=missing)
         saved = self.save_containers()
         # wrong-length tuples are rejected
